@@ -36,6 +36,8 @@ type Expected struct {
 	UnknownTok  []int              // argv index of each unknown token
 	HelpCalled  bool
 	Consumed    []bool // per argv index: wholly consumed as option / value / command name / reached terminator
+	Hits        map[string][]int // "ownerPath\x1fprimaryName" -> argv indices of the tokens that addressed the option
+	LevelAt     []string // per argv index: path of the level at which the token was interpreted ("" = not reached)
 	Decisions   int    // number of greedy lookahead decisions taken (for non-triviality rules)
 	Descents    int
 	// Dispatch expectation (valid when !Fail)
@@ -247,7 +249,7 @@ func wellFormed(elem byte, tok string) bool {
 
 // Model computes the expected outcome of Parse(argv) (+ Dispatch) on a fresh definition of spec.
 func Model(spec *ProgSpec, argv []string) *Expected {
-	exp := &Expected{Opts: map[string]*ExpOpt{}, Consumed: make([]bool, len(argv)), Remaining: []string{}}
+	exp := &Expected{Opts: map[string]*ExpOpt{}, Consumed: make([]bool, len(argv)), LevelAt: make([]string, len(argv)), Remaining: []string{}, Hits: map[string][]int{}}
 	root := spec.Levels()
 	states := map[*OptSpec]*mstate{}
 	owner := map[*OptSpec]string{}
@@ -422,6 +424,7 @@ func Model(spec *ProgSpec, argv []string) *Expected {
 LOOP:
 	for i < len(argv) {
 		tok := argv[i]
+		exp.LevelAt[i] = cur.Path
 		switch TokClass(tok) {
 		case "term":
 			exp.Consumed[i] = true
@@ -479,6 +482,7 @@ LOOP:
 					return unspec("value-taking letter inside a bundle")
 				}
 				st.called, st.as = true, key
+				exp.Hits[OKey(vo.Owner, o.Name)] = append(exp.Hits[OKey(vo.Owner, o.Name)], i)
 				switch {
 				case o.Kind.IsFlag():
 					if p.attached {
